@@ -364,6 +364,41 @@ type Summary struct {
 	Samples     []string
 	Truncated   bool
 	Wall        time.Duration
+	Pending     [][]int32 // decision prefixes not yet explored when the deadline struck (resume with ExploreOpts.Resume)
+}
+
+// Merge adds the results of a continued exploration to s.
+func (s *Summary) Merge(o *Summary) {
+	s.Paths += o.Paths
+	s.Steps += o.Steps
+	s.Decisions += o.Decisions
+	if o.MaxDecision > s.MaxDecision {
+		s.MaxDecision = o.MaxDecision
+	}
+	s.Violations = append(s.Violations, o.Violations...)
+	s.Fallbacks = append(s.Fallbacks, o.Fallbacks...)
+	for k, v := range o.Ends {
+		s.Ends[k] += v
+	}
+	for k, v := range o.Covers {
+		s.Covers[k] += v
+	}
+	for k, v := range o.Notes {
+		s.Notes[k] += v
+	}
+	for k, v := range o.Msgs {
+		s.Msgs[k] += v
+	}
+	for k, v := range o.Funcs {
+		s.Funcs[k] += v
+	}
+	s.UnknownBr += o.UnknownBr
+	s.UnknownAs += o.UnknownAs
+	s.Asserts += o.Asserts
+	s.Solver.Add(o.Solver)
+	s.Wall += o.Wall
+	s.Truncated = o.Truncated
+	s.Pending = o.Pending
 }
 
 type ExploreOpts struct {
@@ -375,6 +410,7 @@ type ExploreOpts struct {
 	MaxViolPer int // stop collecting after this many violations per label
 	Seed       int64
 	Verbose    bool
+	Resume     [][]int32 // continue from these pending decision prefixes instead of from the root
 }
 
 // Explore runs the harness function over all feasible paths.
@@ -392,6 +428,10 @@ func (e *Engine) Explore(entryName string, o ExploreOpts) (*Summary, error) {
 	var mu sync.Mutex
 	cond := sync.NewCond(&mu)
 	work := [][]int32{nil}
+	if o.Resume != nil {
+		work = append([][]int32(nil), o.Resume...)
+	}
+	stop := false
 	active := 0
 	perLabel := map[string]int{}
 	t0 := time.Now()
@@ -404,17 +444,17 @@ func (e *Engine) Explore(entryName string, o ExploreOpts) (*Summary, error) {
 			defer w.S.Close()
 			for {
 				mu.Lock()
-				for len(work) == 0 && active > 0 {
+				for len(work) == 0 && active > 0 && !stop {
 					cond.Wait()
 				}
-				if len(work) == 0 {
+				if len(work) == 0 || stop {
 					mu.Unlock()
 					cond.Broadcast()
 					break
 				}
 				if (o.MaxPaths > 0 && sum.Paths >= o.MaxPaths) || (!o.Deadline.IsZero() && time.Now().After(o.Deadline)) {
 					sum.Truncated = true
-					work = nil
+					stop = true // what is left in work stays pending
 					mu.Unlock()
 					cond.Broadcast()
 					break
@@ -476,5 +516,8 @@ func (e *Engine) Explore(entryName string, o ExploreOpts) (*Summary, error) {
 	}
 	wg.Wait()
 	sum.Wall = time.Since(t0)
+	if sum.Truncated {
+		sum.Pending = work
+	}
 	return sum, nil
 }
